@@ -44,29 +44,29 @@ type Replay struct {
 
 // workerMsg is one line of worker output.
 type workerMsg struct {
-	Kind    string   `json:"k"` // "F" finding, "S" stats, "X" sample
-	Replay  *Replay  `json:"replay,omitempty"`
-	Stats   *Stats   `json:"stats,omitempty"`
-	Sample  string   `json:"sample,omitempty"`
+	Kind   string  `json:"k"` // "F" finding, "S" stats, "X" sample
+	Replay *Replay `json:"replay,omitempty"`
+	Stats  *Stats  `json:"stats,omitempty"`
+	Sample string  `json:"sample,omitempty"`
 }
 
 // Stats aggregates what a worker (or a whole run) covered.
 type Stats struct {
-	Scenarios    int            `json:"scenarios"`
-	Execs        int            `json:"execs"`
-	Points       int            `json:"points"`
-	MaxPoints    int            `json:"max_points"`
-	Premise      int            `json:"premise"`    // scenarios in which the property's premise held
-	Nontrivial   int            `json:"nontrivial"` // ... and a converter chain ran / the oracle had something to judge
-	OutcomeHist  map[string]int `json:"outcome_hist"` // "<k> distinct outcomes" -> scenarios
-	Classes      map[string]int `json:"classes"`      // outcome class -> executions
-	ActiveSites  map[string]int `json:"active_sites,omitempty"`
-	Sites        map[string]int `json:"sites,omitempty"`
-	Grown        map[string]int `json:"grown,omitempty"`
-	StepsSeen    int            `json:"steps_seen"`
-	ActiveSeen   int            `json:"active_seen"`
-	BuildErrs    int            `json:"build_errs"`
-	Findings     int            `json:"findings"`
+	Scenarios   int            `json:"scenarios"`
+	Execs       int            `json:"execs"`
+	Points      int            `json:"points"`
+	MaxPoints   int            `json:"max_points"`
+	Premise     int            `json:"premise"`      // scenarios in which the property's premise held
+	Nontrivial  int            `json:"nontrivial"`   // ... and a converter chain ran / the oracle had something to judge
+	OutcomeHist map[string]int `json:"outcome_hist"` // "<k> distinct outcomes" -> scenarios
+	Classes     map[string]int `json:"classes"`      // outcome class -> executions
+	ActiveSites map[string]int `json:"active_sites,omitempty"`
+	Sites       map[string]int `json:"sites,omitempty"`
+	Grown       map[string]int `json:"grown,omitempty"`
+	StepsSeen   int            `json:"steps_seen"`
+	ActiveSeen  int            `json:"active_seen"`
+	BuildErrs   int            `json:"build_errs"`
+	Findings    int            `json:"findings"`
 }
 
 func newStats() *Stats {
@@ -384,10 +384,10 @@ func confirm(r *Replay) {
 
 // RunResult is what a check run produced.
 type RunResult struct {
-	Stats    *Stats
-	Findings []Replay
-	Samples  []string
-	Crashes  int
+	Stats     *Stats
+	Findings  []Replay
+	Samples   []string
+	Crashes   int
 	RaceCases int
 }
 
